@@ -8,7 +8,7 @@
     prescribes.  [op_ok]: batches are non-empty with positions in [0, MaxInt32), Remove has 0 <= begin <= end. *)
 From Coq Require Import List ZArith NArith Bool Arith Lia Permutation.
 From V Require Import KvCache.Model KvCache.ProofsList KvCache.ProofsInv KvCache.ProofsDefrag KvCache.ProofsOps
-  KvCache.ProofsFwd KvCache.ProofsRefine KvCache.ProofsFindings.
+  KvCache.ProofsFwd KvCache.ProofsRefine KvCache.ProofsFindings KvCache.ProofsWindow.
 From V Require KvCache.Spec.
 Import ListNotations.
 Open Scope Z_scope.
@@ -55,7 +55,7 @@ Proof.
   destruct HF as [HI' [_ [_ [_ [_ [[Hc _]|[f' [Hf [_ Hvis]]]]]]]]]; simpl in *; [discriminate|].
   injection Hf as <-. destruct (Hvis i e He) as [vis [Hn Hm]]. exists vis. split; [exact Hn|]. rewrite Hm.
   pose proof (step_refines c s (Forward batch) HI HR Hvb) as [_ [HR' _]]. simpl in HR'. rewrite Hsf in HR'. simpl in HR'.
-  apply visible_raw_perm. apply R_seqv. exact HR'.
+  apply visible_raw_perm. apply R_seqv. destruct (Spec.spec_forward s batch) as [s1 e1]. exact HR'.
 Qed.
 Print Assumptions C06_visible_exact.
 
@@ -141,8 +141,125 @@ Theorem C06_can_resume_as_found_refuted : ~ C06_can_resume_as_found_full.
 Proof. exact can_resume_as_found_refuted. Qed.
 Print Assumptions C06_can_resume_as_found_refuted.
 
-(** *** Non-vacuity: a concrete history (store, copy the prefix, diverge, remove a middle range with shift, fill
-    up so that defragmentation runs) satisfies the hypotheses, and the visible history at its end is the expected one *)
+(** *** The specification against the ideal history that never forgets (KvCache/ProofsWindow.v).
+    [grun] runs the specification together with the ideal per-sequence histories [g_A] (store / copy of the prefix /
+    removal with shift, by the meaning of the operations alone) and the ghost [g_M] of what the window evicted.
+    [sop_ok]: valid positions, 0 <= begin <= end, CopyPrefix between different sequences. *)
+
+(** after every history, for every sequence and position: ideal window = what the specification exposes ++ what was
+    evicted inside that window *)
+Theorem C06_window_ideal : forall cap w sh ops q p, Forall sop_ok ops ->
+  let g := grun (ginit (Spec.spec_init cap w sh)) ops in
+  Permutation (filter (inw w p) (g_A g q)) (Spec.visible_raw (g_s g) q p ++ filter (inw w p) (g_M g q)).
+Proof.
+  intros cap w sh ops q p Hok. cbv zeta.
+  pose proof (grun_inv ops _ (ginit_inv cap w sh) Hok) as HG.
+  pose proof (visible_ideal _ q p HG) as H. rewrite window_grun in H. exact H.
+Qed.
+Print Assumptions C06_window_ideal.
+
+(** caches without a window: the exposed history is the ideal history, for every history whatsoever *)
+Theorem C06_complete_no_window : forall cap sh ops q p, Forall sop_ok ops ->
+  let g := grun (ginit (Spec.spec_init cap None sh)) ops in
+  Permutation (filter (inw None p) (g_A g q)) (Spec.visible_raw (g_s g) q p).
+Proof.
+  intros cap sh ops q p Hok. cbv zeta. pose proof (C06_window_ideal cap None sh ops q p Hok) as H. cbv zeta in H.
+  rewrite (no_window_no_eviction ops (ginit (Spec.spec_init cap None sh)) eq_refl (fun _ => eq_refl) q) in H.
+  simpl in H. rewrite app_nil_r in H. exact H.
+Qed.
+Print Assumptions C06_complete_no_window.
+
+(** sliding-window caches.  Full statement: after any history of valid operations, the tokens of a batch that continues
+    each of its sequences where it ends see their complete ideal window.  It is FALSE: Remove of a middle range shifts
+    the tail down, and the window of the next token reaches entries that were evicted (the known finding
+    C06-swa-middle-remove, the TODO in kvcache/causal.go Remove). *)
+Definition C06_window_complete_full : Prop :=
+  forall cap w sh ops batch, Forall sop_ok ops -> sop_ok (Spec.SForward batch) ->
+  let g0 := grun (ginit (Spec.spec_init cap (Some w) sh)) ops in
+  contiguous_batch (g_A g0) batch ->
+  let g := gstep g0 (Spec.SForward batch) in
+  forall q p t, In (q, p, t) batch -> Permutation (filter (inw (Some w) p) (g_A g q)) (Spec.visible_raw (g_s g) q p).
+
+Theorem C06_window_complete_refuted : ~ C06_window_complete_full.
+Proof.
+  intros H.
+  specialize (H 12%nat 3 true
+    [Spec.SForward [(0%nat, 0, 1%N); (0%nat, 1, 2%N); (0%nat, 2, 3%N); (0%nat, 3, 4%N)];
+     Spec.SForward [(0%nat, 4, 5%N); (0%nat, 5, 6%N); (0%nat, 6, 7%N); (0%nat, 7, 8%N)];
+     Spec.SRemove 0%nat 2 7]
+    [(0%nat, 3, 20%N)]).
+  cbv zeta in H.
+  assert (Hp := fun a b c => H a b c 0%nat 3 20%N (or_introl eq_refl)). clear H.
+  assert (HP : forall X Y : list (Z * N), (Permutation X Y) -> length X = length Y) by (intros; apply Permutation_length; assumption).
+  eapply HP in Hp.
+  - vm_compute in Hp. discriminate.
+  - repeat constructor; unfold Spec.MaxInt32; simpl; lia.
+  - repeat constructor; unfold Spec.MaxInt32; simpl; lia.
+  - intros q L HL. simpl in HL. destruct q as [|q]; [|discriminate].
+    injection HL as <-. vm_compute. reflexivity.
+Qed.
+Print Assumptions C06_window_complete_refuted.
+
+(** the strongest partial statement, with the decidable guard that excludes exactly the failing class: a token sees its
+    complete ideal window IF AND ONLY IF nothing the window evicted lies inside that window *)
+Theorem C06_window_complete_partial : forall cap w sh ops q p, Forall sop_ok ops ->
+  let g := grun (ginit (Spec.spec_init cap w sh)) ops in
+  (filter (inw w p) (g_M g q) = [] <->
+   Permutation (filter (inw w p) (g_A g q)) (Spec.visible_raw (g_s g) q p)).
+Proof.
+  intros cap w sh ops q p Hok. cbv zeta.
+  pose proof (grun_inv ops _ (ginit_inv cap w sh) Hok) as HG.
+  pose proof (complete_iff _ q p HG) as H. rewrite window_grun in H. exact H.
+Qed.
+Print Assumptions C06_window_complete_partial.
+
+(** and the guard holds for the protocol "store where the sequence ends, or clear the sequence" (no CopyPrefix, no
+    Remove other than Remove(seq, 0, MaxInt32)): every token of every batch of such a run sees its complete ideal window,
+    whether or not intermediate batches were refused with ErrKvCacheFull *)
+Theorem C06_window_complete_appends : forall cap w sh ops pre batch post,
+  append_run (ginit (Spec.spec_init cap (Some w) sh)) ops -> ops = pre ++ Spec.SForward batch :: post ->
+  forall q p t, In (q, p, t) batch ->
+  let g := grun (ginit (Spec.spec_init cap (Some w) sh)) (pre ++ [Spec.SForward batch]) in
+  Permutation (filter (inw (Some w) p) (g_A g q)) (Spec.visible_raw (g_s g) q p).
+Proof.
+  intros cap w sh ops pre batch post Hrun Heq q p t Hin.
+  apply (append_run_complete ops w (ginit (Spec.spec_init cap (Some w) sh)) (ginit_inv cap (Some w) sh) eq_refl) with (post := post) (t := t); auto.
+  intros q' x Hx. simpl in Hx. contradiction.
+Qed.
+Print Assumptions C06_window_complete_appends.
+
+(** end to end: what the MODEL exposes for a batch token, together with what the window evicted inside the token's
+    window, is the token's ideal window *)
+Theorem C06_exposed_is_ideal : forall w ms cap mb cp bp sh ops batch c' f,
+  Z.of_nat (cache_size w ms cap mb (norm_pad cp)) < MaxInt ->
+  Forall op_ok ops -> Forall sop_ok (map to_sop ops) -> valid_batch batch ->
+  start_forward true (prun (init w ms cap mb cp bp sh) ops) batch = (c', OFwd f) ->
+  let g := gstep (grun (ginit (Spec.spec_init (cache_size w ms cap mb (norm_pad cp)) w sh)) (map to_sop ops)) (Spec.SForward batch) in
+  forall i e, nth_error batch i = Some e ->
+  exists vis, nth_error (f_vis f) i = Some vis /\
+    Permutation (map (kt (phys c')) vis ++ filter (inw w (e_pos e)) (g_M g (e_seq e)))
+                (filter (inw w (e_pos e)) (g_A g (e_seq e))).
+Proof.
+  intros w ms cap mb cp bp sh ops batch c' f Hsz Hok Hsok Hvb Hsf g i e He.
+  destruct (C06_refines w ms cap mb cp bp sh ops Hsz Hok) as [HI HR].
+  destruct (C06_visible_exact _ _ batch c' f HI HR Hvb Hsf i e He) as [vis [Hn Hp]].
+  exists vis. split; [exact Hn|].
+  set (s0 := Spec.spec_init (cache_size w ms cap mb (norm_pad cp)) w sh) in *.
+  assert (HG : GI g).
+  { unfold g. apply gstep_inv; [apply grun_inv; [apply ginit_inv|exact Hsok]|]. destruct Hvb as [_ Hv]. exact Hv. }
+  assert (Hgs : g_s g = fst (Spec.spec_forward (Spec.spec_prun s0 (map to_sop ops)) batch)).
+  { unfold g. simpl. rewrite g_s_grun. simpl. destruct (Spec.spec_forward (Spec.spec_prun s0 (map to_sop ops)) batch). reflexivity. }
+  assert (Hw : Spec.s_window (g_s g) = w).
+  { pose proof (window_grun (map to_sop ops ++ [Spec.SForward batch]) (ginit s0)) as H.
+    unfold grun in H. rewrite fold_left_app in H. simpl in H. exact H. }
+  pose proof (visible_ideal g (e_seq e) (e_pos e) HG) as HV. rewrite Hw, Hgs in HV.
+  apply Permutation_sym. eapply Permutation_trans; [exact HV|]. apply Permutation_app_tail. apply Permutation_sym. exact Hp.
+Qed.
+Print Assumptions C06_exposed_is_ideal.
+
+(** *** Non-vacuity: a concrete history (store, copy the prefix, diverge, remove a middle range with shift, clear a
+    sequence, store a batch that only fits after defragmentation) satisfies the hypotheses; the cache (6 locations)
+    ends up defragmented and the visible history of the last token is the expected one *)
 Example C06_example_history :
   let ops := [Forward [(0%nat, 0, 1%N); (0%nat, 1, 2%N); (0%nat, 2, 3%N)];
               Copy 0 1 2;
@@ -152,14 +269,45 @@ Example C06_example_history :
               Remove 1 0 MaxInt32;
               Forward [(0%nat, 3, 7%N); (0%nat, 4, 8%N); (0%nat, 5, 9%N)]] in
   Forall op_ok ops /\
-  let c := prun (init None 2 4 3 1 1 true) ops in
-  Spec.visible (Spec.spec_prun (Spec.spec_init 8 None true) (map to_sop ops)) 0 5 =
+  Z.of_nat (cache_size None 2 3 3 (norm_pad 1)) < MaxInt /\
+  let c := prun (init None 2 3 3 1 1 true) ops in
+  Spec.visible (Spec.spec_prun (Spec.spec_init 6 None true) (map to_sop ops)) 0%nat 5 =
     [(0, 1%N); (1, 3%N); (2, 5%N); (3, 7%N); (4, 8%N); (5, 9%N)] /\
   map (fun cl => (c_pos cl, c_seqs cl)) (cells c) =
-    [(0, [0%nat]); (4, [0%nat]); (1, [0%nat]); (5, [0%nat]); (3, [0%nat]); (2, [0%nat]); (0, []); (0, [])].
+    [(0, [0%nat]); (2, [0%nat]); (1, [0%nat]); (3, [0%nat]); (4, [0%nat]); (5, [0%nat])] /\
+  map (kt (phys c)) [0; 1; 2; 3; 4; 5]%nat = [(0, 1%N); (2, 5%N); (1, 3%N); (3, 7%N); (4, 8%N); (5, 9%N)].
 Proof.
-  cbv zeta. split.
+  cbv zeta. split; [|split].
   - repeat constructor; unfold valid_batch, e_pos, MaxInt32; simpl; try (intro; discriminate); try lia;
       repeat constructor; simpl; lia.
-  - vm_compute. split; reflexivity.
+  - vm_compute. reflexivity.
+  - vm_compute. repeat split; reflexivity.
+Qed.
+
+(** the hypotheses of [C06_can_resume_sound] are satisfiable with a positive answer *)
+Example C06_example_resume :
+  let c := prun (init (Some 2) 1 8 4 1 1 true)
+             [Forward [(0%nat, 0, 1%N); (0%nat, 1, 2%N); (0%nat, 2, 3%N)]; Forward [(0%nat, 3, 4%N)]; Forward [(0%nat, 4, 5%N)]] in
+  window c = Some 2 /\ NoDup (map c_pos (filter (has 0%nat) (cells c))) /\ can_resume true c 0%nat 4 = true /\
+  can_resume true c 0%nat 3 = false.
+Proof.
+  cbv zeta. vm_compute. repeat split; try reflexivity. repeat constructor; simpl; intuition discriminate.
+Qed.
+
+(** the guard of [C06_window_complete_partial] holds in a run in which the window did evict entries, and the protocol
+    of [C06_window_complete_appends] is satisfiable by such a run *)
+Example C06_example_window :
+  let ops := [Spec.SForward [(0%nat, 0, 1%N); (0%nat, 1, 2%N); (0%nat, 2, 3%N); (0%nat, 3, 4%N)];
+              Spec.SForward [(0%nat, 4, 5%N); (0%nat, 5, 6%N); (0%nat, 6, 7%N); (0%nat, 7, 8%N)];
+              Spec.SForward [(0%nat, 8, 9%N)]] in
+  let g := grun (ginit (Spec.spec_init 12 (Some 3) true)) ops in
+  Forall sop_ok ops /\ append_run (ginit (Spec.spec_init 12 (Some 3) true)) ops /\
+  g_M g 0%nat = [(0, 1%N); (1, 2%N); (2, 3%N); (3, 4%N); (4, 5%N)] /\ filter (inw (Some 3) 8) (g_M g 0%nat) = [] /\
+  Spec.visible_raw (g_s g) 0%nat 8 = [(5, 6%N); (6, 7%N); (7, 8%N); (8, 9%N)].
+Proof.
+  cbv zeta. split; [|split].
+  - repeat constructor; unfold Spec.MaxInt32; simpl; lia.
+  - simpl. repeat split; try (repeat constructor; unfold Spec.MaxInt32; simpl; lia);
+      intros q L HL; simpl in HL; destruct q as [|q]; try discriminate; injection HL as <-; vm_compute; reflexivity.
+  - vm_compute. repeat split; reflexivity.
 Qed.
